@@ -61,6 +61,10 @@ class P(vlib.Prop):
                      {"zz_verif_c14_test.go": "C14/e2e_test.go",
                       "zz_verif_c14_shape_test.go": _instantiate("e2e")},
                      "^TestVerifC14E2E$", "e2e", timeout=900),
+        vlib.Harness("resolve", "confmap/internal/e2e", ".",
+                     {"zz_verif_c14_test.go": "C14/resolve_test.go",
+                      "zz_verif_c14_shape_test.go": _instantiate("e2etest")},
+                     "^TestVerifC14Resolve$", "e2etest", timeout=900),
     ]
     rule = ("the REAL configopaque.String alone and inside 30 (thorough: 63) container shapes (pointer, exported / unexported "
             "struct field, slice, array, map value, map key, interface, nested up to depth 4), each rendered with 10 adversarial "
